@@ -145,7 +145,26 @@ def shaped_multiset(depth=2, hostile=False, max_size=5):
     lst = st.lists(st.one_of(sub, sd), max_size=4).map(lambda l: ["list", l])
     tup = st.lists(st.one_of(sub, sd), max_size=3).map(lambda l: ["tuple", l])
     sets = st.lists(hashable(1), max_size=4).map(lambda l: ["set", l])
+    # "records": small key alphabet, simple values, so that key sets overlap and second-level merges
+    # (TypedDicts that already carry optional fields, merged again) happen often
+    rkey = st.sampled_from(["a", "b", "c", "d"] + (HOSTILE_KEYS[:2] if hostile else [])).map(lit)
+    rval = st.sampled_from([lit(0), lit("x"), lit(None), lit(1.5), ["inst", "D1"], ["list", []], ["dict", []]])
+    record = st.lists(st.tuples(rkey, rval).map(list), max_size=3, unique_by=lambda kv: kv[0][1]).map(lambda l: ["dict", l])
+    record2 = st.lists(st.tuples(rkey, st.one_of(rval, record)).map(list), min_size=1, max_size=3, unique_by=lambda kv: kv[0][1]).map(lambda l: ["dict", l])
+    recs = st.lists(st.one_of(record, record2), max_size=3).map(lambda l: ["list", l])
+    wrapped = st.one_of(
+        recs,
+        recs,
+        st.lists(recs, max_size=2).map(lambda l: ["list", l]),
+        record2.map(lambda r: ["tuple", [r]]),
+        st.tuples(record, record2).map(lambda p: ["tuple", list(p)]),
+        record2.map(lambda r: ["dict", [[lit(0), r]]]),
+        record2,
+    )
     return st.one_of(
+        st.lists(wrapped, min_size=2, max_size=4),
+        st.lists(recs, min_size=2, max_size=4),
+        st.lists(st.one_of(wrapped, st.sampled_from([lit(None), lit(0)])), min_size=2, max_size=4),
         st.lists(values(depth + 1, hostile=hostile), max_size=max_size),
         st.lists(sd, min_size=1, max_size=max_size),
         st.lists(lst, min_size=1, max_size=max_size),
